@@ -1089,3 +1089,10 @@ func init() {
 		},
 	})
 }
+
+// rule addenda (rounds 9-12): what the evidence says about the coverage of a run
+func init() {
+	if p := registry["C17"]; p != nil {
+		p.Rule += " Every text is also parsed through dsn.Parse when the presence of :// selects the same form (same answer required); the documented keys and aliases of dsn.Info and tds.Info are written down in the oracle (every one must be there and name its member)."
+	}
+}
